@@ -40,9 +40,9 @@ type vInv struct {
 	fail  bool
 }
 
-//verif:harness prop=C14 quick=5 thorough=9 merge=none models=scan,term,hash,payload timeout=1500
+//verif:harness prop=C14 quick=5 thorough=9 merge=none models=scan,term,hash timeout=1500
 //verif:bounds protocol layer through the real `gts delete`: histories of 2 invocations over one cache directory; each invocation = (input record of 4 symbolic residues, same as or different from the first; locator `2` or `3`; input well-formed or malformed after its first record; one shard: first invocation with -o x.fasta, second to stdout); real ioDelegate/TryCache/cache.File/writer; compared with the same invocation under --no-cache
-//verif:assume scanner = queue of the records (fails after them when the input is malformed), in-memory file system, identity flate, uninterpreted digests without collisions between the inputs compared, payload encoding injective
+//verif:assume scanner = queue of the records (fails after them when the input is malformed), in-memory file system, identity flate, uninterpreted digests without collisions between the inputs compared, json.Marshal modelled by an injective structural encoding (the real encodePayload runs)
 func VH_C14_history() {
 	sh := vShard(5 + 4*vTier())
 	toFile := false
@@ -125,8 +125,8 @@ func vClearCache(dir string) {
 }
 
 //verif:harness prop=C14 quick=3 thorough=3 merge=concrete timeout=1500
-//verif:bounds key completeness by self-composition: each of extract / delete / insert is run twice on the same concrete record (acgta with a forward and a complement gene) on a cold cache with two independently chosen option vectors (extract: -v; delete: -e; insert: -e; each also with locator gene or gene@^); whenever the two runs use the same cache key (the entry name = digest of input digest and payload digest) their outputs must be equal
-//verif:assume outputs are compared as emitted sequences (capturing writer); payload encoding injective
+//verif:bounds key completeness by self-composition: each of extract / delete / insert is run twice on the same concrete record (acgta with a forward and a complement gene) on a cold cache with two independently chosen option vectors (extract: -v and the locator list [gene] | [gene@^] | [gene, gene@^] | ["gene gene@^"]; delete: -e; insert: -e; these two with locator gene or gene@^); whenever the two runs use the same cache key (the entry name = digest of input digest and payload digest) their outputs must be equal
+//verif:assume outputs are compared as emitted sequences (capturing writer); json.Marshal modelled by an injective structural encoding (the real encodePayload runs)
 func VH_C14_key_completeness() {
 	cmd := vShard(3)
 	// a concrete record: the quantifier of this harness is the option vector
@@ -154,7 +154,17 @@ func VH_C14_key_completeness() {
 			if opt {
 				args = append(args, "-v")
 			}
-			args = append(args, loc)
+			// extract takes a list of locators: one, the other, both, or one argument that spells both
+			switch vChoice(tag+".locs", 4) {
+			case 0:
+				args = append(args, "gene")
+			case 1:
+				args = append(args, "gene@^")
+			case 2:
+				args = append(args, "gene", "gene@^")
+			default:
+				args = append(args, "gene gene@^")
+			}
 		case 1:
 			if opt {
 				args = append(args, "-e")
@@ -236,9 +246,9 @@ func vRunReal(name string, fn flags.Function, args []string, stdin []byte, home 
 	return out, cerr == nil
 }
 
-//verif:harness prop=C14 quick=2 thorough=4 merge=concrete models=term,hash,payload timeout=1500
+//verif:harness prop=C14 quick=2 thorough=4 merge=concrete models=term,hash timeout=1500
 //verif:bounds secondary inputs through the real scanner and writer: gts insert (guest) and gts search (query) on a concrete FASTA host; history of two invocations over one cache directory, one with the literal argument @a (quick) / @ac (thorough) and one with a file of as many symbolic ASCII bytes (so also unparsable files and files that spell a literal), in either order; each compared with its --no-cache run
-//verif:assume in-memory file system, identity flate, uninterpreted digests without collisions between the inputs compared, payload encoding injective
+//verif:assume in-memory file system, identity flate, uninterpreted digests without collisions between the inputs compared, json.Marshal modelled by an injective structural encoding (the real encodePayload runs)
 func VH_C14_secondary_input() {
 	sh := vShard(2 + 2*vTier())
 	home, gdir := "/cache-home", "/g"
@@ -281,6 +291,66 @@ func VH_C14_secondary_input() {
 	vCover("baseline")
 	for k, args := range h {
 		out, ok := vRunReal(name, fn, args, stdin, home)
+		vAssert("same-exit-status", ok == baseOK[k])
+		vAssert("same-output", vSameB(out, baseOut[k]))
+	}
+	vObserve("len", len(baseOut[0]))
+}
+
+//verif:harness prop=C14 quick=2 thorough=4 merge=none models=scan,term,hash timeout=1500
+//verif:bounds secondary input files of gts insert (guest) and gts infix (host): history of two invocations over one cache directory on the same primary input and locator, with two different FASTA files that hold the same residues differently (one record xy | two records x, y; x, y symbolic letters) or, thorough, the same file twice; each compared with its --no-cache run
+//verif:assume scanners = queues of the records the files hold (natively the real scanner reads the real files), in-memory file system, flate framing model, uninterpreted digests without collisions between the inputs compared, json.Marshal modelled by an injective structural encoding
+func VH_C14_secondary_records() {
+	sh := vShard(2 + 2*vTier())
+	home, gdir := "/cache-home", "/g"
+	if !vIsModel() {
+		home, gdir = vTempDir(), vTempDir()
+	}
+	xy := vBytesIn("xy", 2, 'a', 'z')
+	one := []gts.Sequence{seqio.Fasta{Desc: "g", Data: []byte{xy[0], xy[1]}}}
+	two := []gts.Sequence{seqio.Fasta{Desc: "g", Data: []byte{xy[0]}}, seqio.Fasta{Desc: "h", Data: []byte{xy[1]}}}
+	text1 := append(append([]byte(">g\n"), xy[0], xy[1]), '\n')
+	text2 := append(append(append([]byte(">g\n"), xy[0]), []byte("\n>h\n")...), xy[1], '\n')
+	put := func(name string, content []byte) string {
+		path := gdir + "/" + name
+		if vIsModel() {
+			vFSWrite(path, content)
+		} else if err := os.WriteFile(path, content, 0o644); err != nil {
+			panic(err)
+		}
+		return path
+	}
+	p1, p2 := put("one.fasta", text1), put("two.fasta", text2)
+	files := []string{p1, p2}
+	queues := [][]gts.Sequence{one, two}
+	if sh >= 2 {
+		files, queues = []string{p1, p1}, [][]gts.Sequence{one, one} // the same file twice: the second run is a hit
+	}
+	rec, data := vPlainRecord("a", 4)
+	name, fn := "insert", insertFunc
+	if sh%2 == 1 {
+		name, fn = "infix", infixFunc
+	}
+	stdin := append([]byte{}, data...)
+	run := func(k int, nocache bool) ([]byte, bool) {
+		args := []string{"2", files[k]}
+		if nocache {
+			args = append([]string{"--no-cache"}, args...)
+		}
+		vSecondary = [][]gts.Sequence{queues[k]}
+		out, ok := vRunCached(name, fn, args, []gts.Sequence{rec}, stdin, false, home)
+		vSecondary = nil
+		return out, ok
+	}
+	var baseOut [][]byte
+	var baseOK []bool
+	for k := range files {
+		out, ok := run(k, true)
+		baseOut, baseOK = append(baseOut, out), append(baseOK, ok)
+	}
+	vCover("baseline")
+	for k := range files {
+		out, ok := run(k, false)
 		vAssert("same-exit-status", ok == baseOK[k])
 		vAssert("same-output", vSameB(out, baseOut[k]))
 	}
